@@ -222,8 +222,12 @@ pub fn withclause(s: &S) -> WithClause {
             "cte" => {
                 let mut cte = CommonTableExpression::new();
                 cte.table_name(id(&l[0]));
-                for col in l[1].args() {
-                    cte.column(id(col));
+                if exprs::shash(c) % 2 == 0 {
+                    for col in l[1].args() {
+                        cte.column(id(col));
+                    }
+                } else {
+                    cte.columns(l[1].args().iter().map(id).collect::<Vec<_>>());
                 }
                 match subquery(&l[2]) {
                     SubQueryStatement::SelectStatement(x) => cte.query(x),
@@ -237,15 +241,28 @@ pub fn withclause(s: &S) -> WithClause {
                 }
                 w.cte(cte);
             }
+            "ctefs" => {
+                let mut cte = CommonTableExpression::from_select(select(&l[0]));
+                if l.len() > 1 {
+                    cte.materialized(l[1].atom() == "mat");
+                }
+                w.cte(cte);
+            }
             "search" => {
                 let ord = if l[0].atom() == "breadth" { SearchOrder::BREADTH } else { SearchOrder::DEPTH };
-                w.search(Search::new_from_order_and_expr(
-                    ord,
-                    SelectExpr { expr: expr(&l[1]), alias: Some(id(&l[2]).into_iden()), window: None },
-                ));
+                let se = SelectExpr { expr: expr(&l[1]), alias: Some(id(&l[2]).into_iden()), window: None };
+                if exprs::shash(c) % 2 == 0 {
+                    w.search(Search::new_from_order_and_expr(ord, se));
+                } else {
+                    w.search(Search::new().order(ord).expr(se).to_owned());
+                }
             }
             "cycle" => {
-                w.cycle(Cycle::new_from_expr_set_using(expr(&l[0]), id(&l[1]), id(&l[2])));
+                if exprs::shash(c) % 2 == 0 {
+                    w.cycle(Cycle::new_from_expr_set_using(expr(&l[0]), id(&l[1]), id(&l[2])));
+                } else {
+                    w.cycle(Cycle::new().expr(expr(&l[0])).set(id(&l[1])).using(id(&l[2])).to_owned());
+                }
             }
             _ => panic!("with clause"),
         }
@@ -795,14 +812,15 @@ pub fn subquery(s: &S) -> SubQueryStatement {
 }
 
 pub fn withquery(s: &S) -> WithQuery {
-    // (withq (with ...) query)
+    // (withq (with ...) query): WithClause::query(q), or the statement's own with(clause)
     let l = s.args();
     let w = withclause(&l[0]);
+    let alt = exprs::shash(s) % 2 == 1;
     match subquery(&l[1]) {
-        SubQueryStatement::SelectStatement(q) => w.query(q),
-        SubQueryStatement::InsertStatement(q) => w.query(q),
-        SubQueryStatement::UpdateStatement(q) => w.query(q),
-        SubQueryStatement::DeleteStatement(q) => w.query(q),
+        SubQueryStatement::SelectStatement(q) => if alt { q.with(w) } else { w.query(q) },
+        SubQueryStatement::InsertStatement(q) => if alt { q.with(w) } else { w.query(q) },
+        SubQueryStatement::UpdateStatement(q) => if alt { q.with(w) } else { w.query(q) },
+        SubQueryStatement::DeleteStatement(q) => if alt { q.with(w) } else { w.query(q) },
         SubQueryStatement::WithStatement(_) => panic!("nested with query"),
     }
 }
